@@ -1825,7 +1825,8 @@ theorem handle_stake_cases {s s' : State} {k : Nat} {amt : Int} (hh : handle s (
   split at hh
   · simp at hh
   rename_i s1 hs1
-  simp only [Option.some.injEq] at hh
+  simp only [ite_none_left_eq_some, Option.some.injEq] at hh
+  obtain ⟨_, hh⟩ := hh
   refine ⟨by simpa using hk, by omega, _, s1, _, rfl, by simpa using hst, hs1, ?_⟩
   split at hh
   · exact Or.inl hh.symm
@@ -1919,7 +1920,7 @@ theorem handle_unjail_spec {s s' : State} (h : Acct s) {a : Addr}
   split at hh
   · simp at hh
   simp only [ite_none_left_eq_some, Option.some.injEq] at hh
-  obtain ⟨_, _, rfl⟩ := hh
+  obtain ⟨_, _, _, rfl⟩ := hh
   have hfr : SlashFrame s (setStaked (setVal s a { v with jailed := false }) a { v with jailed := false }) :=
     (setVal_frame _ _ _).trans (setStaked_frame _ _ _)
   obtain ⟨e, hs⟩ := eff_setVal (v' := { v with jailed := false }) h hv hfr
@@ -2108,7 +2109,7 @@ theorem step_core {s : State} {op : Op} {r : State × List (Addr × Int) × Bool
       exact ⟨a, by rw [hsur]; simp [opDonation], by simp [opDonation]⟩
   | commit =>
     simp only [step, Option.some.injEq] at hs; subst hs
-    have e : SEff s { s with cHeight := s.height, cTime := s.time } :=
+    have e : SEff s { s with cHeight := s.height, cTime := s.time, index := s.blockTxs ++ s.index, blockTxs := [] } :=
       seff_of_wf ha { ha.wf with } rfl rfl rfl rfl
     exact ⟨e.acct, by rw [e.surplus]; simp [opDonation], by simp [opDonation]⟩
   | award a amt =>
@@ -2124,8 +2125,13 @@ theorem step_core {s : State} {op : Op} {r : State × List (Addr × Int) × Bool
   | tx mode t =>
     simp only [step, Option.some.injEq] at hs; subst hs
     obtain ⟨e, hd⟩ := runTx_spec ha mode t
-    refine ⟨e.acct, ?_, ?_⟩
-    · rw [e.surplus]
+    have e2 : SEff (runTx s mode t).1 (if mode == .deliver then
+        { (runTx s mode t).1 with blockTxs := t.id :: (runTx s mode t).1.blockTxs } else (runTx s mode t).1) := by
+      split
+      · exact seff_of_wf e.acct { e.acct.wf with } rfl rfl rfl rfl
+      · exact SEff.refl e.acct
+    refine ⟨e2.acct, ?_, ?_⟩
+    · rw [e2.surplus, e.surplus]
       cases mode <;> simp [opDonation]
     · cases mode <;> simp_all [opDonation]
 
